@@ -38,6 +38,7 @@ func init() {
 			ruleSuffixSearchResumesAtNextByte(c, "R14")
 			ruleRegexpSuffixComparedBytewise(c, "R15")
 			ruleExhaustedPathPrefersTheNode(c, "R16")
+			ruleRegexpSplitOnRuneBoundary(c, "R17")
 		},
 	})
 }
